@@ -605,4 +605,15 @@ theorem available_by_miner_total {l : List Group} {c : Chain} (r : Rep l c) (h :
 
 example : availableByMiner c3 100 [0xe1] = some [] := by decide
 
+/-- A refused batch write FOLLOWED by any further history: the refused add leaves a chain that still
+    represents the old list (`write_fault_batch_surfaces`), so every later sequence of adds, removals,
+    fork-switch removals and restarts keeps representing a list that starts with the same genesis
+    group — the refused group leaves no trace in the index (the class of seeded change C19-i: entries
+    of the failed batch surviving into a later write). -/
+theorem inv_after_surfaced_write_fault {l : List Group} {c : Chain} (r : Rep l c) (g : Group)
+    (hid : IdOK g.id) (hok : addCheck c g = .ok) (gen : List Group) (ops : List Op)
+    (hops : ∀ op ∈ ops, OpOK op) (hb : l.length + ops.length < lenBound) :
+    ∃ c' l', runOps gen (addGroupF c g (some 1)).2 ops = some c' ∧ Rep l' c' ∧ l'.head? = l.head? :=
+  rep_run gen ops l _ (write_fault_batch_surfaces r g hid hok).2 hops hb
+
 end Rangers.Props.C19
